@@ -3,6 +3,9 @@
 From Coq Require Import Reals List Bool Arith ZArith.
 From Interval Require Import Tactic.
 From LV Require Import Goose.DA.
+(* support library of the source tie (tools/py2gallina_c11.py): required here only so that the targeted
+   build of the check compiles it; nothing of it is used by the correspondence glue below *)
+From LV Require Goose.GenC11Tie.
 Import ListNotations.
 Open Scope R_scope.
 
